@@ -1,0 +1,86 @@
+//go:build verif
+
+// Verification hooks (build tag "verif"): exported access to the unexported
+// session type for the external conformance harness. Not part of the product.
+
+package gateway
+
+import (
+	"context"
+	"net"
+	"time"
+
+	"github.com/energomonitor/bisquitt/topics"
+	"github.com/energomonitor/bisquitt/util"
+)
+
+// VerifConfig mirrors handlerConfig; TopicIDMin/Max (when both non-zero)
+// replace the topic ID range of the session's ID sequence.
+type VerifConfig struct {
+	MqttUser     *string
+	MqttPassword []byte
+	AuthEnabled  bool
+	RetryDelay   time.Duration
+	RetryCount   uint
+	TopicIDMin   uint16
+	TopicIDMax   uint16
+}
+
+// VerifSession wraps one handler1.
+type VerifSession struct {
+	h *handler1
+}
+
+// NewVerifSession builds a real session whose broker connection is brokerConn.
+func NewVerifSession(cfg VerifConfig, predefined topics.PredefinedTopics, logger util.Logger, brokerConn net.Conn) *VerifSession {
+	h := newHandler(&handlerConfig{
+		MqttUser:     cfg.MqttUser,
+		MqttPassword: cfg.MqttPassword,
+		AuthEnabled:  cfg.AuthEnabled,
+		RetryDelay:   cfg.RetryDelay,
+		RetryCount:   cfg.RetryCount,
+	}, predefined, logger)
+	if cfg.TopicIDMin != 0 && cfg.TopicIDMax != 0 {
+		h.topicID = util.NewIDSequence(cfg.TopicIDMin, cfg.TopicIDMax)
+	}
+	h.mockupDialFunc = func() net.Conn { return brokerConn }
+	return &VerifSession{h: h}
+}
+
+// Run runs the session until it ends.
+func (s *VerifSession) Run(ctx context.Context, snConn net.Conn) {
+	s.h.run(ctx, snConn)
+}
+
+// State returns the current client state.
+func (s *VerifSession) State() util.ClientState {
+	return s.h.state.Get()
+}
+
+// Registered returns a copy of the session's registered topics.
+func (s *VerifSession) Registered() map[uint16]string {
+	m := map[uint16]string{}
+	s.h.registeredTopics.Range(func(k, v interface{}) bool {
+		m[k.(uint16)] = v.(string)
+		return true
+	})
+	return m
+}
+
+// Buffered returns the number of packets queued for a sleeping client.
+// Only meaningful while the session is quiescent.
+func (s *VerifSession) Buffered() int {
+	return len(s.h.pktBuffer)
+}
+
+// PendingIDs returns the message IDs with a stored transaction.
+func (s *VerifSession) PendingIDs() []uint16 {
+	return s.h.transactions.VerifIDs()
+}
+
+// SkipTopicIDs consumes n values of the topic ID sequence.
+func (s *VerifSession) SkipTopicIDs(n int) {
+	for i := 0; i < n; i++ {
+		s.h.topicID.Next()
+	}
+}
